@@ -142,8 +142,13 @@ def run(ctx: Ctx, tier: str) -> Result:
     m_ = msg[0]
     fmt_cls = None
     okp = False
-    if isinstance(m_, ast.BinOp) and isinstance(m_.op, ast.Mod) and isinstance(m_.left, ast.Constant) and m_.left.value == "[deep] %s":
-        rhs = m_.right
+    from .common import fmt_parts
+    fp_ = fmt_parts(m_)
+    rhs_node = None
+    if fp_ is not None and fp_[0] == "[deep] {}" and len(fp_[1]) == 1:
+        rhs_node = m_.right if isinstance(m_, ast.BinOp) else [v for v in m_.values if isinstance(v, ast.FormattedValue)][0].value
+    if rhs_node is not None:
+        rhs = rhs_node
         if isinstance(rhs, ast.Call) and isinstance(rhs.func, ast.Attribute) and rhs.func.attr in ("vformat", "format") \
                 and isinstance(rhs.func.value, ast.Call):
             cname = norm(rhs.func.value.func)
@@ -189,8 +194,14 @@ def run(ctx: Ctx, tier: str) -> Result:
             res.fail(Finding("C16.PIPE", gf.qname, "<eval_watch>", gf.loc(), "get_field evaluates the field %d times through eval_watch (expected once)" % len(ew)))
 
     # ---------------- SNAP
-    sp = p.func(SNAP + "._process_action")
-    plc = [c for c in t.calls_in(sp) if pl in t.resolve_call(c, sp).repo]
+    from .common import expand_through
+    sp0 = p.func(SNAP + "._process_action")
+    sp, plc, via = sp0, [], None
+    for f_, c0_ in [(sp0, None)] + [(x, c0) for c0 in t.calls_in(sp0) for x in t.resolve_call(c0, sp0).repo if x.cls is sp0.cls and x is not sp0]:
+        plc = [c for c in t.calls_in(f_) if pl in t.resolve_call(c, f_).repo]
+        if plc:
+            sp, via = f_, c0_
+            break
     if len(plc) != 1:
         res.fail(Finding("C16.SNAP", sp.qname, "<process_log>", sp.loc(), "snapshot action renders the log message %d times (expected once)" % len(plc)))
     else:
@@ -198,7 +209,7 @@ def run(ctx: Ctx, tier: str) -> Result:
         names = [norm(x) for x in st.targets[0].elts] if isinstance(st, ast.Assign) and isinstance(st.targets[0], ast.Tuple) else []
         need(len(names) == 3, "snapshot action: process_log result is not unpacked into three names")
         ln, wn, vn = names
-        arg = ctx.expand.expand(plc[0].args[0], sp) if plc[0].args else []
+        arg = expand_through(ctx, plc[0].args[0], sp, sp0, via) if plc[0].args else []
         if arg and "'log_msg'" in arg[0]:
             res.ok("C16.SNAP", {"template": arg[0]})
         else:
